@@ -1011,7 +1011,9 @@ impl Display for SymbolKind {
             SymbolKind::Tuple(ref t, ref s) => write!(fmt, "{t}:{s}"),
             SymbolKind::Lookahead => write!(fmt, "@L"),
             SymbolKind::Lookbehind => write!(fmt, "@R"),
-            SymbolKind::Error => write!(fmt, "error"),
+            // Not the word `error`: the canonical form keys the macro expansion cache, and a
+            // nonterminal may be called `error`.
+            SymbolKind::Error => write!(fmt, "!"),
         }
     }
 }
